@@ -2,10 +2,11 @@
 
 from typing import Any, Dict, List, Optional
 
-from ..exc import ValidationError
+from ..exc import CoercionError, ValidationError
 from ..lang.ast import Document, OperationDefinition
 from ..schema import Schema
 from .collect_fields import collect_fields_untyped, selected_fields
+from .untyped_value_from_ast import untyped_value_from_ast
 
 
 class MaxDepthValidationRule:
@@ -72,20 +73,41 @@ class MaxDepthValidationRule:
             ):
                 continue
 
-            # Top level fields can also be reached through (nested) fragments
-            # and can be skipped through directives.
-            root_fields = collect_fields_untyped(
-                op.selection_set.selections, fragments, variables
-            )
+            # The rule sees the raw variables: variables which were not
+            # provided take the default value the operation declares.
+            op_variables = dict(variables)
+            for var_def in op.variable_definitions:
+                var_name = var_def.variable.name.value
+                if (
+                    var_name not in op_variables
+                    and var_def.default_value is not None
+                ):
+                    op_variables[var_name] = untyped_value_from_ast(
+                        var_def.default_value
+                    )
 
-            paths = (
-                p
-                for fields in root_fields.values()
-                for f in fields
-                for p in selected_fields(
-                    f, fragments=fragments, variables=variables, maxdepth=None,
+            try:
+                # Top level fields can also be reached through (nested)
+                # fragments and can be skipped through directives.
+                root_fields = collect_fields_untyped(
+                    op.selection_set.selections, fragments, op_variables
                 )
-            )
+
+                paths = [
+                    p
+                    for fields in root_fields.values()
+                    for f in fields
+                    for p in selected_fields(
+                        f,
+                        fragments=fragments,
+                        variables=op_variables,
+                        maxdepth=None,
+                    )
+                ]
+            except CoercionError:
+                # @skip / @include steered by a missing or null variable: the
+                # operation cannot be executed with these variables.
+                continue
 
             # A flat operation selects no nested path at all.
             depth = max((x.count("/") + 1 for x in paths), default=0)
